@@ -34,10 +34,10 @@ impl InputVariant {
         }
     }
 
-    /// Whether this variant is one `FromMeta` has no parser for: a tuple variant with
-    /// more than one field (unless it is skipped, in which case it is never parsed).
+    /// Whether this variant is one `FromMeta` has no parser for: a tuple variant that does
+    /// not have exactly one field (unless it is skipped, in which case it is never parsed).
     pub(crate) fn is_unsupported_tuple(&self) -> bool {
-        self.data.is_tuple() && self.data.len() > 1 && !self.skip.unwrap_or_default()
+        self.data.is_tuple() && self.data.len() != 1 && !self.skip.unwrap_or_default()
     }
 
     pub fn from_variant(v: &syn::Variant, parent: Option<&Core>) -> Result<Self> {
